@@ -41,6 +41,7 @@ def g_items(draw, max_items=None):
     if c["jfa"] and c["V"] is None:
         c["V"] = np.sqrt(p["variances"]).ravel()[:, None] * r.normal(0, 1, (p["C"] * p["F"], gen.integer(draw, 1, 2)))
     c["em"] = gen.integer(draw, 1, 3)
+    c["pre_use"] = gen.choice(draw, ["none", "none", "enroll", "fit"])
     c["np_seed"] = gen.integer(draw, 0, 9999)
     c["dim_t"] = gen.integer(draw, 1, 3)
     return c
@@ -94,6 +95,11 @@ def train(case, data, y):
         m.fit(data)
         return {"T": np.asarray(m.T, float), "sigma": np.asarray(m.sigma, float)}
     m = sut.make_fa(case, em_iterations=case["em"])
+    pre = case.get("pre_use", "none")
+    if pre == "enroll":
+        m.enroll([sut.make_stats(s) for s in case["sessions"][:2]])
+    elif pre == "fit":
+        m.fit([sut.make_stats(s) for s in case["sessions"]], np.asarray(case["y"]))
     m.fit(data, y)
     out = {"U": np.asarray(m.U, float)}
     if case["jfa"]:
